@@ -312,3 +312,122 @@ Module Jn.
   Definition returned (s : state) : bool := match pcr s with PRet => true | _ => false end.
   Definition done (s : state) : bool := returned s && terminated s.
 End Jn.
+
+(* ================================================================== hub.Subscription
+   hub/subscription.go:
+     run(): for { select {                                              PSel (the scheduler resolves the choice
+                  case ppblk := <-s.blocks:                                   when both arms are ready)
+                      if s.IsTerminating() { return nil }               PChk   "deal with non-predictibility of select"
+                      if err := handler(ppblk); err != nil { return err }  PInH
+                  case <-s.Terminating(): return nil } }
+     Run(): s.Shutdown(s.run())                                         PShut / PSdBusy
+     push (called by the hub for every block): if len == cap { error -> the hub unsubscribes and calls
+           sub.Shutdown(err) } else s.blocks <- ppblk
+   The subscription registers no OnTerminating callback. *)
+Module Sb.
+  Inductive pc := PSel | PChk (b : nat) (ok : bool) | PInH (b : nat) (ok : bool) | PShut | PSdBusy | PRet.
+  Inductive xstate := XIdle | XBusy | XDone.
+  Inductive pstate := HIdle | HBusy.
+  Inductive tid := TRun (pick_term : bool) | TPush | TX.
+
+  Record state := mk {
+    pcr : pc;   (* Subscription.Run thread *)
+    pcx : xstate;   (* external Shutdown thread *)
+    pcp : pstate;   (* the hub (pushes blocks; shuts the subscription down when its channel is full) *)
+    sdst : option sdstage;   (* stage of the one effective Shutdown() *)
+    buf : list (nat * bool);   (* s.blocks: queued blocks (with the answer the handler will give) *)
+    cap : nat;   (* cap(s.blocks) *)
+    pscript : list (nat * bool);   (* blocks the hub will still push *)
+    log : list ev;
+    hbegun : nat }.
+  Definition set_pcr (s : state) v := mk v (pcx s) (pcp s) (sdst s) (buf s) (cap s) (pscript s) (log s) (hbegun s).
+  Definition set_pcx (s : state) v := mk (pcr s) v (pcp s) (sdst s) (buf s) (cap s) (pscript s) (log s) (hbegun s).
+  Definition set_pcp (s : state) v := mk (pcr s) (pcx s) v (sdst s) (buf s) (cap s) (pscript s) (log s) (hbegun s).
+  Definition set_sdst (s : state) v := mk (pcr s) (pcx s) (pcp s) v (buf s) (cap s) (pscript s) (log s) (hbegun s).
+  Definition set_buf (s : state) v := mk (pcr s) (pcx s) (pcp s) (sdst s) v (cap s) (pscript s) (log s) (hbegun s).
+  Definition set_cap (s : state) v := mk (pcr s) (pcx s) (pcp s) (sdst s) (buf s) v (pscript s) (log s) (hbegun s).
+  Definition set_pscript (s : state) v := mk (pcr s) (pcx s) (pcp s) (sdst s) (buf s) (cap s) v (log s) (hbegun s).
+  Definition set_log (s : state) v := mk (pcr s) (pcx s) (pcp s) (sdst s) (buf s) (cap s) (pscript s) v (hbegun s).
+  Definition set_hbegun (s : state) v := mk (pcr s) (pcx s) (pcp s) (sdst s) (buf s) (cap s) (pscript s) (log s) v.
+
+
+  Definition init (cap : nat) (ps : list (nat * bool)) : state :=
+    mk PSel XIdle HIdle None [] cap ps [] 0.
+
+  Definition terminating (s : state) : bool :=
+    match sdst s with Some SCb | Some STerm | Some SDone => true | _ => false end.
+  Definition terminated (s : state) : bool := match sdst s with Some SDone => true | _ => false end.
+  Definition emit (s : state) e := set_log s (e :: log s).
+
+  Definition sd_advance (s : state) : state :=
+    match sdst s with
+    | Some SClose => set_sdst s (Some SCb)
+    | Some SCb => set_sdst s (Some STerm)          (* no callback registered *)
+    | Some STerm => set_sdst s (Some SDone)
+    | _ => s
+    end.
+
+  Definition recv (s : state) : state :=
+    match buf s with
+    | (b, ok) :: r => set_pcr (set_buf s r) (PChk b ok)
+    | [] => s
+    end.
+
+  Definition step_run (pick_term : bool) (s : state) : state :=
+    match pcr s with
+    | PSel =>
+        match buf s, terminating s with
+        | [], false => s                                               (* blocked *)
+        | [], true => set_pcr s PShut
+        | _ :: _, false => recv s
+        | _ :: _, true => if pick_term then set_pcr s PShut else recv s
+        end
+    | PChk b ok =>
+        if terminating s then set_pcr s PShut
+        else set_hbegun (emit (set_pcr s (PInH b ok)) (EHBegin 0 b)) (S (hbegun s))
+    | PInH b ok =>
+        emit (set_pcr s (if ok then PSel else PShut)) (EHEnd 0 b ok)
+    | PShut =>
+        match sdst s with
+        | None => set_sdst (set_pcr s PSdBusy) (Some SClose)
+        | Some _ => emit (set_pcr s PRet) ERet
+        end
+    | PSdBusy =>
+        let s1 := sd_advance s in
+        if terminated s1 then emit (set_pcr s1 PRet) ERet else s1
+    | PRet => s
+    end.
+
+  Definition step_push (s : state) : state :=
+    match pcp s with
+    | HIdle =>
+        match pscript s with
+        | [] => s
+        | x :: r =>
+            if Nat.leb (cap s) (length (buf s))
+            then (* channel full: the hub unsubscribes and shuts the subscription down *)
+                 match sdst s with
+                 | None => set_sdst (set_pcp (set_pscript s []) HBusy) (Some SClose)
+                 | Some _ => set_pscript s []
+                 end
+            else set_buf (set_pscript s r) (buf s ++ [x])
+        end
+    | HBusy => let s1 := sd_advance s in if terminated s1 then set_pcp s1 HIdle else s1
+    end.
+
+  Definition step_x (s : state) : state :=
+    match pcx s with
+    | XIdle => match sdst s with
+               | None => set_sdst (set_pcx s XBusy) (Some SClose)
+               | Some _ => set_pcx s XDone
+               end
+    | XBusy => let s1 := sd_advance s in if terminated s1 then set_pcx s1 XDone else s1
+    | XDone => s
+    end.
+
+  Definition step (s : state) (t : tid) : state :=
+    match t with TRun c => step_run c s | TPush => step_push s | TX => step_x s end.
+
+  Definition returned (s : state) : bool := match pcr s with PRet => true | _ => false end.
+  Definition done (s : state) : bool := returned s && terminated s.
+End Sb.
